@@ -5,12 +5,14 @@
 import Driver.Util
 import Driver.ElimTree
 import Driver.NonnegMean
+import Driver.Raire
 open Lean Shangrla Shangrla.Drv
 
 def dispatch (g op : String) (a : Json) : R Json :=
   match g with
   | "elimtree" => ElimTreeH.handle op a
   | "nm" => NMH.handle op a
+  | "raire" => RaireH.handle op a
   | _ => throw s!"unknown group {g}"
 
 def handleLine (line : String) : String :=
